@@ -201,7 +201,9 @@ def run_race(i):
         if w != 1 or rf != n - 1:
             res["viol"].append(("proc-init-not-exactly-once", "%d threads raced ovni_proc_init: %d returned, %d refused"
                                 % (n, w, rf), {"stdout": r.out}))
-        ndiag = len(re.findall(r"already being initialized|already initialized", r.err))
+        # one line of diagnostic per refusal, whatever its wording (ThreadSanitizer output aside)
+        ndiag = len([l for l in r.err.split("\n") if l.strip() and not l.startswith(("  ", "=", "WARNING: ThreadSanitizer",
+                                                                                      "SUMMARY", "ThreadSanitizer"))])
         if rf and ndiag < rf:
             res["viol"].append(("refusal-without-diagnostic", "%d refusals, %d diagnostics" % (rf, ndiag), {}))
         if m2:
